@@ -1,0 +1,7 @@
+//go:build verif
+
+package block
+
+// VerifHashData exposes getHashData (the string that ComputeHash hashes) to the
+// verification harness. No logic.
+func (b *Block) VerifHashData() string { return b.getHashData() }
